@@ -79,7 +79,7 @@ def make_case(seed, i, tier):
             "engine": kind, "maxlen": rng.choice([3, 5, 8, 15, 40]), "reverse": rng.random() < 0.4,
             "x0": rng.uniform(0.0, 1.0), "v0": rng.uniform(-1.0, 1.0), "eng_seed": rng.randrange(1 << 30),
             "retrace": rng.random() < 0.5, "width": rng.choice([0.05, 0.2, 0.6]),
-            "subcycles": rng.choice([1, 1, 2, 3])}}
+            "subcycles": rng.choice([1, 1, 2, 3]), "lj_sigma": rng.choice([0.0, 3.0, 3.0])}}
     scn = {
         "engine": engine,
         "op": rng.choice(["Distance", "Distance", "Distancevel"]),
@@ -341,7 +341,7 @@ def run_inproc(case):
         elif kind.startswith("ase"):
             eng, wconf, rframes, order = E.build_ase(
                 scratch, "velocityverlet" if kind == "ase_vv" else "langevin", scn["eng_seed"],
-                subcycles=scn.get("subcycles", 1))
+                subcycles=scn.get("subcycles", 1), lj_sigma=scn.get("lj_sigma", 0.0))
             x0 = 5.0 + scn["x0"]
             v0 = scn["v0"] * 0.2
             left, right = x0 - 4 * scn["width"], x0 + 4 * scn["width"]
@@ -464,9 +464,11 @@ def run(case):
         start_order = op_value(scn["op"], (ctx["pos"] - ctx["box"][:, 0]).copy(), ctx["vel"],
                                ctx["box"][:, 1] - ctx["box"][:, 0], 1.0)
         path = Path(maxlen=scn["maxlen"])
-        raised, success = None, None
+        raised, success, hang = None, None, None
         try:
             success, _ = eng.propagate(path, ens, system, reverse=scn["reverse"])
+        except X.EngineHang as exc:
+            hang = exc
         except Exception as exc:           # noqa
             raised = exc
         tprogs = [p for p in sim.procs if isinstance(p, X.TrajProgram)]
@@ -476,6 +478,9 @@ def run(case):
         if prog is None:
             raise RuntimeError(f"harness: no program was started ({raised!r})")
         try:
+            if hang is not None:
+                raise Bad("engine_never_returns", f"{scn['engine']}: propagate does not return: {hang}",
+                          site=scn["engine"])
             outcome = _check_call(case, ctx, path, success, raised, prog, scn["reverse"], scn["maxlen"],
                                   start_order)
             if scn["retrace"] and outcome == "ok" and path.length >= 3:
@@ -510,7 +515,10 @@ def run(case):
                             raise Bad("wrong_vel_rev", f"{scn['engine']}: forward frame {i3} has vel_rev=True",
                                       site=scn["engine"])
                     outcome = "ok+retrace2"
-        except Bad as b:
+        except (Bad, X.EngineHang) as b:
+            if isinstance(b, X.EngineHang):
+                b = Bad("engine_never_returns", f"{scn['engine']}: a retrace propagate does not return: {b}",
+                        site=scn["engine"])
             known = any(e.get("property") == PROP and e.get("class") == b.vclass
                         and e.get("site") in (None, b.site) for e in case.get("known", []))
             violations.append({"prop": PROP, "class": b.vclass, "msg": str(b)[:700], "site": b.site,
